@@ -332,11 +332,17 @@ impl Monitor for C04 {
                     (x + ONE - 1) / ONE
                 }
             };
-            let yes = match h.rng.below(6) {
+            // besides the exact boundary, probe just below it at distances a precision-losing
+            // implementation would be wrong by (relative 1e-9, 1e-6, 2^-30 of the weight)
+            let yes = match h.rng.below(10) {
                 0 => need.saturating_sub(1),
                 1 => need,
                 2 => need + 1,
                 3 => 0,
+                4 => need.saturating_sub(2),
+                5 => need.saturating_sub((total as u128 / 1_000_000_000).max(2)),
+                6 => need.saturating_sub((total as u128 / 1_000_000).max(3)),
+                7 => need.saturating_sub((total as u128 >> 30).max(2)),
                 _ => h.rng.range(0, rest) as u128,
             }
             .min(rest as u128) as u64;
